@@ -823,7 +823,22 @@ func (s *Store) DeleteShard(shardID uint64) error {
 		sfile := s.seriesFile(db)
 		if sfile != nil {
 			// If the inmem index is in use, then the series being removed from the
-			// series file will also need to be removed from the index.
+			// series file will also need to be removed from the index. The inmem index
+			// is shared by all inmem shards of the database, so in a database with
+			// mixed index types it can hold these series although the shard being
+			// deleted is a tsi1 shard (an inmem shard containing them was deleted
+			// earlier); use the shared index of a remaining inmem shard then.
+			if index.Type() != InmemIndexName {
+				for _, other := range shards {
+					if other.IndexType() != InmemIndexName {
+						continue
+					}
+					if otherIndex, err := other.Index(); err == nil {
+						index = otherIndex
+						break
+					}
+				}
+			}
 			if index.Type() == InmemIndexName {
 				var keyBuf []byte // Series key buffer.
 				var name []byte
